@@ -1,6 +1,6 @@
 //! C03 harness: analysis and every editor query are total on any project state.
 //!
-//! usage: c03 gen   <seed> <ncases> <nsteps> <out.jsonl> <workdir> <threads> <watchdog_s> [<lsp_cases_out.json> <n_lsp>]
+//! usage: c03 gen   <seed> <ncases> <nsteps> <out.jsonl> <workdir> <threads> <watchdog_s> [<lsp_cases_out.json> <n_lsp> [<budget_s>]]
 //!        c03 cases <cases.json>            <out.jsonl> <workdir> <threads> <watchdog_s>
 //!        c03 min   <replay.json> <out.json> <workdir>       (delta-debugging of one violating case)
 //!        c03 show  <seed> <idx> <nsteps>                    (print a generated case as JSON)
@@ -324,7 +324,7 @@ fn select_cursors(r: &mut Rng, text: &str, near_line: Option<u32>, max: usize, e
         out = all;
     } else {
         if let Some(nl) = near_line {
-            let near: Vec<(u32, u32)> = all.iter().copied().filter(|(l, _)| *l + 2 >= nl && *l <= nl + 2).collect();
+            let near: Vec<(u32, u32)> = all.iter().copied().filter(|(l, _)| l.saturating_add(2) >= nl && *l <= nl.saturating_add(2)).collect();
             let take = (max * 2 / 3).min(near.len());
             if near.len() <= take {
                 out.extend(near);
@@ -544,9 +544,15 @@ fn file_queries(project: &Project, sc: &mut StateCtx, fname: &str, src: &Source)
     }
 }
 
-fn cursor_queries(project: &Project, sc: &mut StateCtx, fname: &str, src: &Source, cursors: &[(u32, u32)], hb: &Heartbeat, seen_ents: &mut HashSet<usize>) {
+fn cursor_queries(project: &Project, sc: &mut StateCtx, fname: &str, src: &Source, cursors: &[(u32, u32)], hb: &Heartbeat, seen_ents: &mut HashSet<usize>, near: Option<u32>, full: bool) {
     let texts = Texts::new(project);
+    let nlines = src.contents().num_lines() as u32;
+    let mut nrefs = 0usize;
     for (i, &(l, c)) in cursors.iter().enumerate() {
+        // the expensive queries (completion: ~ms with ieee loaded; references: a search of the whole project) run at the
+        // cursors next to the edit, at the out-of-range cursors and at every 4th of the others
+        let close = near.map(|n| l.saturating_add(1) >= n && l <= n.saturating_add(1)).unwrap_or(false);
+        let expensive = full || close || l >= nlines || i % 4 == 0;
         if i % 16 == 0 {
             hb.beat();
         }
@@ -605,7 +611,7 @@ fn cursor_queries(project: &Project, sc: &mut StateCtx, fname: &str, src: &Sourc
                 }
             }
         });
-        let compl = q!("list_completion_options", |pr: &mut Vec<String>| {
+        let compl = if !expensive { None } else { q!("list_completion_options", |pr: &mut Vec<String>| {
             let items = project.list_completion_options(src, cur);
             let n = items.len();
             for (k, it) in items.into_iter().enumerate() {
@@ -654,13 +660,14 @@ fn cursor_queries(project: &Project, sc: &mut StateCtx, fname: &str, src: &Sourc
                 }
             }
             n
-        });
+        }) };
         if let Some(n) = compl {
             sc.stats.completions += n;
         }
         if let Some(d) = decl {
             sc.stats.found_decl += 1;
-            if seen_ents.insert(d.id().to_raw()) {
+            if (full || close || nrefs < 6) && seen_ents.insert(d.id().to_raw()) {
+                nrefs += 1;
                 q!("find_all_references(rename)", |pr: &mut Vec<String>| {
                     for pos in project.find_all_references(d) {
                         if let Some(p) = texts.check(&pos) {
@@ -769,6 +776,8 @@ fn unit_arenas(project: &Project, case: &Case, dir: &Path) -> Vec<Value> {
 // running one case
 // ------------------------------------------------------------------------------------------------
 struct Opts {
+    /// run the expensive queries at every cursor (corpus / replay)
+    full_queries: bool,
     max_cursors: usize,
     exhaustive_cursors: bool,
     arena_trace: bool,
@@ -868,7 +877,7 @@ fn run_case(case: &Case, dir: &Path, hb: &Heartbeat, out: &Out, opts: &Opts) -> 
                 }
             }
             file_queries(&project, &mut sc, fname, &src);
-            cursor_queries(&project, &mut sc, fname, &src, &cursors, hb, &mut seen_ents);
+            cursor_queries(&project, &mut sc, fname, &src, &cursors, hb, &mut seen_ents, near, opts.full_queries);
             hb.beat();
         }
         if opts.arena_trace {
@@ -905,26 +914,37 @@ fn run_case(case: &Case, dir: &Path, hb: &Heartbeat, out: &Out, opts: &Opts) -> 
 // ------------------------------------------------------------------------------------------------
 // driver: worker threads + watchdog
 // ------------------------------------------------------------------------------------------------
-fn run_all(cases: Arc<Vec<Case>>, out_path: &str, workdir: &str, threads: usize, watchdog_s: u64, opts: Arc<Opts>) -> i32 {
+fn run_all(cases: Arc<Vec<Case>>, out_path: &str, workdir: &str, threads: usize, watchdog_s: u64, opts: Arc<Opts>, budget_s: u64) -> i32 {
     install_hook();
     let out = Arc::new(Out { file: Mutex::new(std::fs::File::create(out_path).unwrap()), sigs: Mutex::new(HashMap::new()) });
     let next = Arc::new(AtomicUsize::new(0));
     let t0 = Instant::now();
     let hbs: Vec<Arc<Heartbeat>> = (0..threads).map(|_| Arc::new(Heartbeat::new(t0))).collect();
     let finished = Arc::new(AtomicUsize::new(0));
+    let started = Arc::new(AtomicUsize::new(0));
     let totals = Arc::new(Mutex::new((Stats::default(), 0usize, BTreeMap::<String, usize>::new(), BTreeMap::<String, usize>::new())));
     let mut handles = vec![];
     for w in 0..threads {
         let (cases, out, next, hb, finished, totals, opts) = (cases.clone(), out.clone(), next.clone(), hbs[w].clone(), finished.clone(), totals.clone(), opts.clone());
+        let started = started.clone();
         let dir = PathBuf::from(workdir).join(format!("w{w}"));
         handles.push(std::thread::Builder::new().stack_size(256 << 20).spawn(move || {
             loop {
                 let i = next.fetch_add(1, Ordering::SeqCst);
-                if i >= cases.len() {
+                // time budget: no new case is started after `budget_s` seconds (the cases themselves stay deterministic)
+                if i >= cases.len() || (budget_s > 0 && t0.elapsed().as_secs() > budget_s) {
                     break;
                 }
+                started.fetch_add(1, Ordering::SeqCst);
                 let case = &cases[i];
-                let (st, nv) = run_case(case, &dir, &hb, &out, &opts);
+                // a panic of the harness itself (outside the guarded implementation calls) must not look like a hang
+                let (st, nv) = match catch_unwind(AssertUnwindSafe(|| run_case(case, &dir, &hb, &out, &opts))) {
+                    Ok(x) => x,
+                    Err(e) => {
+                        out.write(&json!({"kind": "harness_panic", "id": case.id, "detail": panic_text(&e)}));
+                        (Stats::default(), 0)
+                    }
+                };
                 hb.done();
                 let mut t = totals.lock().unwrap();
                 t.0.states += st.states;
@@ -965,7 +985,7 @@ fn run_all(cases: Arc<Vec<Case>>, out_path: &str, workdir: &str, threads: usize,
         }
     }
     let t = totals.lock().unwrap();
-    out.write(&json!({"kind": "summary", "cases": cases.len(), "states": t.0.states, "queries": t.0.queries, "cursors": t.0.cursors, "diagnostics": t.0.diags,
+    out.write(&json!({"kind": "summary", "cases": started.load(Ordering::SeqCst), "cases_generated": cases.len(), "states": t.0.states, "queries": t.0.queries, "cursors": t.0.cursors, "diagnostics": t.0.diags,
         "locations_checked": t.0.locations, "states_with_error_diagnostics": t.0.error_states, "cursors_resolving_to_a_declaration": t.0.found_decl,
         "completion_items": t.0.completions, "violations": t.1, "states_per_family": t.2, "edit_kinds": t.3, "hang": hang,
         "signatures": *out.sigs.lock().unwrap(),
@@ -988,7 +1008,7 @@ fn signature_of(case: &Case, dir: &Path, want: &str, wd_s: u64) -> bool {
     let tmp_out = dir.join("min.out");
     let out = Arc::new(Out { file: Mutex::new(std::fs::File::create(&tmp_out).unwrap()), sigs: Mutex::new(HashMap::new()) });
     let hb = Arc::new(Heartbeat::new(Instant::now()));
-    let opts = Opts { max_cursors: 400, exhaustive_cursors: case.files.iter().map(|(_, t)| t.len()).sum::<usize>() < 4000, arena_trace: false };
+    let opts = Opts { full_queries: true, max_cursors: 400, exhaustive_cursors: case.files.iter().map(|(_, t)| t.len()).sum::<usize>() < 4000, arena_trace: false };
     let (c2, o2, h2, d2) = (case.clone(), out.clone(), hb.clone(), dir.join("w"));
     let done = Arc::new(AtomicUsize::new(0));
     let dn = done.clone();
@@ -1145,8 +1165,9 @@ fn main() {
                 let v: Vec<Value> = cases.iter().take(n).map(|c| c.to_json()).collect();
                 std::fs::write(p, serde_json::to_string(&v).unwrap()).unwrap();
             }
-            let opts = Opts { max_cursors: 48, exhaustive_cursors: false, arena_trace: true };
-            std::process::exit(run_all(Arc::new(cases), out, workdir, threads, wd, Arc::new(opts)));
+            let budget: u64 = args.get(11).and_then(|s| s.parse().ok()).unwrap_or(0);
+            let opts = Opts { full_queries: false, max_cursors: 48, exhaustive_cursors: false, arena_trace: true };
+            std::process::exit(run_all(Arc::new(cases), out, workdir, threads, wd, Arc::new(opts), budget));
         }
         "cases" => {
             let v: Value = serde_json::from_str(&std::fs::read_to_string(&args[2]).unwrap()).unwrap();
@@ -1158,8 +1179,8 @@ fn main() {
             let cases: Vec<Case> = list.iter().filter_map(Case::from_json).collect();
             let threads: usize = args[5].parse().unwrap();
             let wd: u64 = args[6].parse().unwrap();
-            let opts = Opts { max_cursors: 400, exhaustive_cursors: false, arena_trace: true };
-            std::process::exit(run_all(Arc::new(cases), &args[3], &args[4], threads, wd, Arc::new(opts)));
+            let opts = Opts { full_queries: true, max_cursors: 400, exhaustive_cursors: false, arena_trace: true };
+            std::process::exit(run_all(Arc::new(cases), &args[3], &args[4], threads, wd, Arc::new(opts), 0));
         }
         "min" => {
             install_hook();
